@@ -369,6 +369,9 @@ def main(tier, replay=None, rep=None, prop=PROP, cases=None):
 
         n_t2, _ = drift_tier(PROP, "tactic-2", lambda: t2drv.conformance(rep, rd, PROP, tier, seed()))
         n_disp += n_t2
+        # the term arithmetic the tactics are built from (multiply, +, remove / isolate / substitute, sign queries), spec/TermAlgebra.tla
+        n_ta, _ = drift_tier(PROP, "term-arithmetic", lambda: __import__("termdrv").conformance(rep, rd, PROP))
+        n_disp += n_ta
     shutil.rmtree(rd, ignore_errors=True)
     if collect:
         return {"evaluations": n_ev, "nontrivial": nontrivial, "traces": len(traces), "verdict_counts": counts}
